@@ -38,6 +38,8 @@ var defs = map[string]checkDef{
 	"C02": {Engine: "A", Pkg: "./enga", MinEvals: 1000},
 	"C03": {Engine: "A", Pkg: "./enga", MinEvals: 200},
 	"C04": {Engine: "A", Pkg: "./enga", MinEvals: 200},
+	"C05": {Engine: "B", Pkg: "./engb", MinEvals: 1440, Exhaust: true},
+	"C07": {Engine: "B", Pkg: "./engb", MinEvals: 100},
 	"C12": {Engine: "A", Pkg: "./enga", MinEvals: 30000},
 	"C14": {Engine: "A", Pkg: "./enga", MinEvals: 1000},
 	"C15": {Engine: "A", Pkg: "./enga", MinEvals: 1000},
